@@ -9,7 +9,8 @@ Mirrors, path by path:
   `Deps.addEntry`, `Deps.addEdge`, `Deps.requireEntry`, `visit` (the `for entry in entries` body),
   `loop` (the `while let Some(entries) = queue.pop()` loop, with fuel), `getReachable`;
 * `FilterUnit::read_entry` edge construction (`add_attribute_refs`, `add_expression_refs`,
-  `add_location_refs`, `has_die_back_edge`, the parent stack) — `attrDeps`, `hasBackEdge`,
+  `add_location_refs`, `has_die_back_edge`, the parent stack; as repaired by the `fix:` commits
+  6341b4d and 34014b9) — `attrDeps`, `hasBackEdge`,
   `popParents`, `readEntry`, `filterUnit`, `buildDeps`;
 * `ConvertUnitSection::new_with_filter` / `reserve_unit` — `partition`, `reserve`;
 * `ConvertUnit::read_entry` (skipping unreserved entries, parent links through its own stack) and
@@ -155,11 +156,12 @@ inductive OpRef where
   | unitRef (val : Nat)
   /-- `Call{DebugInfoRef}`: section offset, recorded -/
   | infoRef (val : Off)
-  /-- `ImplicitPointer{value}` / `VariableValue{offset}`: NOT matched by `add_expression_refs`
-  (falls into `_ => {}`), but resolved by `Expression::from` with `convert_debug_info_ref` -/
-  | ignoredInfoRef (val : Off)
+  /-- `ImplicitPointer{value}` / `VariableValue{offset}`: section offset, recorded like
+  `Call{DebugInfoRef}` (since fix 6341b4d; before, these fell into `_ => {}`) and resolved by
+  `Expression::from` with `convert_debug_info_ref` -/
+  | implicitRef (val : Off)
   /-- unit-relative reference inside the nested expression of `EntryValue{expression}`: the filter
-  does not descend into it, `Expression::from` does -/
+  recurses into the nested expression (since fix 6341b4d), as `Expression::from` does -/
   | nestedUnitRef (val : Nat)
   /-- section-offset reference inside a nested `EntryValue` expression -/
   | nestedInfoRef (val : Off)
@@ -170,8 +172,10 @@ inductive AttrRef where
   | unitRef (val : Nat)                              -- `AttributeValue::UnitRef`
   | infoRef (val : Off)                              -- `AttributeValue::DebugInfoRef`
   | expr (ops : List OpRef)                          -- `AttributeValue::Exprloc`
-  /-- `LocationListsRef` / `DebugLocListsIndex`: the raw entries in order; the flag says whether the
-  cooked `LocListIter` yields the entry (not a tombstone, `begin < end`) -/
+  /-- `LocationListsRef` / `DebugLocListsIndex`: the raw entries that carry an expression, in
+  order; the flag says whether the cooked `LocListIter` would yield the entry (not a tombstone,
+  `begin < end`) — irrelevant to the code since fix 34014b9 (`add_location_refs` walks the raw
+  entries), kept so that request lines still describe the range kind -/
   | loclist (locs : List (Bool × List OpRef))
   deriving Repr
 
@@ -188,20 +192,22 @@ structure Entry where
 
 /-! ## `FilterUnit::read_entry` -/
 
-/-- `add_expression_refs` -/
+/-- `add_expression_refs` (the `to_unit_section_offset(..).ok_or(InvalidDebugInfoRef)?` of the
+section-offset kinds can only fail for a unit outside `.debug_info`, which `Dwarf::units()` never
+yields, so no error path is modelled) -/
 def opDeps (u : UnitHdr) : OpRef → List Off
   | .unitRef val => if u.inBounds val then [u.base + val] else []
   | .infoRef val => [val]
-  | .ignoredInfoRef _ => []
-  | .nestedUnitRef _ => []
-  | .nestedInfoRef _ => []
+  | .implicitRef val => [val]
+  | .nestedUnitRef val => if u.inBounds val then [u.base + val] else []
+  | .nestedInfoRef val => [val]
 
-/-- `add_attribute_refs` (`add_location_refs` iterates the cooked list) -/
+/-- `add_attribute_refs` (`add_location_refs` iterates the raw list: every entry with `data`) -/
 def attrDeps (u : UnitHdr) : AttrRef → List Off
   | .unitRef val => if u.inBounds val then [u.base + val] else []
   | .infoRef val => [val]
   | .expr ops => ops.flatMap (opDeps u)
-  | .loclist locs => locs.flatMap (fun l => if l.1 then l.2.flatMap (opDeps u) else [])
+  | .loclist locs => locs.flatMap (fun l => l.2.flatMap (opDeps u))
 
 /-- `FilterParent` -/
 structure Parent where
@@ -309,7 +315,7 @@ def firstErr : List (Option ConvErr) → Option ConvErr
 def convOp (ids : List Off) (u : UnitHdr) : OpRef → Option ConvErr
   | .unitRef val => convUnitRef ids u val
   | .infoRef val => convInfoRef ids val
-  | .ignoredInfoRef val => convInfoRef ids val
+  | .implicitRef val => convInfoRef ids val
   | .nestedUnitRef val => convUnitRef ids u val
   | .nestedInfoRef val => convInfoRef ids val
 
